@@ -798,6 +798,9 @@ func main() {
 	}
 	// the stop signal raised from inside OnEvent
 	scenarios = append(scenarios, selfStopScenario(false), selfStopScenario(true), selfStopScenarioW(false, true), selfStopScenarioW(true, true))
+	for _, stray := range []string{"len6", "serial-0", "bad-bcd-sysdate"} {
+		scenarios = append(scenarios, selfStopScenarioS(false, true, stray), selfStopScenarioS(true, true, stray), selfStopScenarioS(false, false, stray))
+	}
 	// Listener values of every dynamic kind
 	for _, k := range []string{"pointer", "struct-value", "map", "func", "int"} {
 		scenarios = append(scenarios, listenerKindScenario(k))
@@ -896,12 +899,19 @@ type selfStopListener struct {
 	// returned: when non-nil the callback, having raised the stop, waits until Listen has returned
 	// ("signal, then wait for the listener to finish" - a common shutdown idiom) before it returns itself
 	returned chan struct{}
+	// stray: when non-empty, a datagram of this (malformed) class reaches the listen address while the
+	// callback is running, just before it raises the stop: the library reports it (OnError) or drops it
+	// with the closing socket - either way the listener still stops and returns
+	stray string
 }
 
 func (l *selfStopListener) OnEvent(s *types.Status) {
 	l.listener.OnEvent(s)
 	if !l.done {
 		l.done = true
+		if l.stray != "" {
+			vs.Net().DeliverUDP("192.168.1.100:60000", fmt.Sprintf("192.168.1.2:%d", lport), datagram(l.stray, 7))
+		}
 		vs.Send(l.q, os.Signal(os.Interrupt))
 		if l.returned != nil {
 			vs.Recv(l.returned)
@@ -911,7 +921,9 @@ func (l *selfStopListener) OnEvent(s *types.Status) {
 
 func selfStopScenario(buffered bool) e1.Scenario { return selfStopScenarioW(buffered, false) }
 
-func selfStopScenarioW(buffered, wait bool) e1.Scenario {
+func selfStopScenarioW(buffered, wait bool) e1.Scenario { return selfStopScenarioS(buffered, wait, "") }
+
+func selfStopScenarioS(buffered, wait bool, stray string) e1.Scenario {
 	var l1 *selfStopListener
 	var ret error
 	var done bool
@@ -920,7 +932,7 @@ func selfStopScenarioW(buffered, wait bool) e1.Scenario {
 		if buffered {
 			n = 1
 		}
-		l1 = &selfStopListener{q: make(chan os.Signal, n)}
+		l1 = &selfStopListener{q: make(chan os.Signal, n), stray: stray}
 		if wait {
 			l1.returned = make(chan struct{})
 		}
@@ -943,7 +955,7 @@ func selfStopScenarioW(buffered, wait bool) e1.Scenario {
 		if e.Abort != "" {
 			return e.Abort, viols
 		}
-		what := fmt.Sprintf("OnEvent sends the stop signal itself (buffered channel: %v; then waits for Listen to return: %v)", buffered, wait)
+		what := fmt.Sprintf("OnEvent sends the stop signal itself (buffered channel: %v; then waits for Listen to return: %v; malformed datagram arriving meanwhile: %q)", buffered, wait, stray)
 		if !done || ret != nil {
 			viols = append(viols, e1.Viol{Key: "stop-from-callback/listener-did-not-return-nil", What: fmt.Sprintf("returned=%v err=%v (%s)", done, ret, what)})
 		}
@@ -952,5 +964,9 @@ func selfStopScenarioW(buffered, wait bool) e1.Scenario {
 		}
 		return fmt.Sprintf("stop-from-callback ret=%v", ret == nil), viols
 	}
-	return e1.Scenario{Name: fmt.Sprintf("stop-from-callback/buffered=%v/waits-for-return=%v", buffered, wait), Bound: 1, Body: body, Check: check, Opt: vs.Options{Horizon: 3000}}
+	name := fmt.Sprintf("stop-from-callback/buffered=%v/waits-for-return=%v", buffered, wait)
+	if stray != "" {
+		name += "/stray=" + stray
+	}
+	return e1.Scenario{Name: name, Bound: 1, Body: body, Check: check, Opt: vs.Options{Horizon: 3000}}
 }
